@@ -61,7 +61,7 @@ func term(in Input, o Obs) string {
 	})
 	return lib.App("mk_case",
 		lib.ListOf(d.Tree, gNode), dbn, lib.ListOf(d.Fields, gFDesc), lib.ListOf(d.Fields, func(f *FDesc) string { return lib.Bool(f.HPK) }), lib.Str(d.Prio), lib.Bool(d.PrioHasDef),
-		lib.Bool(!in.NoRet), gOp(in), lib.Z(o.Base), gZ(timeNs(nowPinned)),
+		lib.Bool(!in.NoRet), lib.Bool(!in.Fwd), gOp(in), lib.Z(o.Base), gZ(timeNs(nowPinned)),
 		gRecs(in.Recs), lib.ListOf(d.Extra, func(f *FDesc) string { return gKind(f.Kind) }), gRecs(xrecs(in)),
 		lib.Bool(o.Err != ""), gRecs(o.After), gRows(o.Rows), lib.Z(o.RowCount),
 		gRecs(o.Find), gRecs(o.XFind), gRecs(o.First), gRecs(o.Take), gRecs(o.ByKey), gRows(o.MMap), gRows(o.TMap), lib.Z(o.NMaps),
@@ -139,6 +139,7 @@ func main() {
 		}
 		out.Count("op", in.Op)
 		out.Count("returning", fmt.Sprint(!in.NoRet))
+		out.Count("last_insert_id_reversed", fmt.Sprint(!in.Fwd))
 		out.Count("naming", "ns:"+in.Naming)
 		out.Count("query_fields", fmt.Sprint(in.QF))
 		out.Count("create_batch_size", fmt.Sprint(in.CBS))
@@ -208,6 +209,11 @@ func main() {
 		g.QF = r.Chance(1, 3)
 		if (g.Op == "slice" || g.Op == "ptrslice" || g.Op == "struct") && r.Chance(1, 4) {
 			g.CBS = r.Range(1, 3)
+		}
+		// the other LastInsertId direction: only statements that run outside a transaction
+		if g.NoRet && r.Chance(1, 3) && g.Op != "batches" {
+			g.Fwd = true
+			g.CBS = 0
 		}
 		if g.Type == "Ints" && r.Chance(1, 8) && (g.Op == "slice" || g.Op == "ptrslice" || g.Op == "batches") {
 			g.Over = true
